@@ -368,7 +368,8 @@ func InnerText(node *html.Node) string {
 	finder = func(n *html.Node) {
 		switch n.Type {
 		case html.TextNode:
-			buffer.WriteString(" " + n.Data + " ")
+			buffer.WriteString(n.Data)
+			return
 
 		case html.ElementNode:
 			if n.Data == "br" {
@@ -378,6 +379,15 @@ func InnerText(node *html.Node) string {
 
 			if !IsProbablyVisible(n) {
 				return
+			}
+
+			// Only an element that is a box of its own separates its text from the
+			// text around it: a word may continue across inline elements.
+			switch GetDisplayStyle(n) {
+			case "inline", "ruby", "ruby-text":
+			default:
+				buffer.WriteString(" ")
+				defer buffer.WriteString(" ")
 			}
 		}
 
